@@ -139,8 +139,22 @@ def gen_histogram(r, k, T):
         sig = ["stepZeroData"]
         M["szd"] = True
     B.append("}")
+    # values mostly inside the grid, on bin edges, and a little outside
+    pos = []
+    cur = [M["lower"][i] + r.randint(0, M["nx"][i] * 8 - 1) * M["width"][i] / 8 for i in range(nv)]
+    for t in range(T):
+        if t > 0:
+            nxt = []
+            for i in range(nv):
+                z = cur[i]
+                if r.random() > 0.25:
+                    z += r.randint(-6, 6) * M["width"][i] / 4
+                lo_, hi_ = M["lower"][i] - M["width"][i], M["lower"][i] + (M["nx"][i] + 1) * M["width"][i]
+                nxt.append(min(hi_, max(lo_, z)))
+            cur = nxt
+        pos.append(list(cur))
     return {"fam": "histogram", "tags": tags, "sigtags": sig, "collapse": "all" if sig else None, "natoms": nv,
-            "config": cfg + B, "it0": r.choice([0, 0, 7]), "pos": walk(r, T, nv, lo=-4.5, hi=4.5, bits=3), "model": M}
+            "config": cfg + B, "it0": r.choice([0, 0, 7]), "pos": pos, "model": M}
 
 
 # ------------------------------------------------------------------------------------------------ extended Lagrangian
